@@ -16,7 +16,15 @@ Tie:
      oracle (the property on the C): no signal / sanitizer report, RC_FAIL (or
      RC_WMORE) once 16*depth exceeds the limit, measured stack extent <= limit + slack;
  (D) length bombs and zero-width elements with a peak-live-bytes meter
-     (harness/moddrv_c15.inc): peak <= c*n + K with the constants of notes/design/C15.md."""
+     (harness/moddrv_c15.inc): peak <= c*n + K with the constants of notes/design/C15.md;
+ (S) the declared-size sweep (lib/c15_sweep.py): every type with a declared size / count /
+     length x SIZE ranges at and beyond 64K x UPER, OER, BER, XER x {short valid, truncated,
+     length field beyond the input, second fragment starved, random}; oracle: peak AND the
+     largest single REQUEST (granted or not: refusing allocator) <= c*n + K where K never
+     depends on a bound of a SIZE range; a short valid input must decode;
+     faithfulness: the extracted allocation-metered decoders of coq/Rt/HeapBound.v
+     (c15_str / c15_lst, policy PerFragment) predict peak, largest request and number of
+     allocations of the C for every UPER string / list input."""
 import sys, os, json
 from concurrent.futures import ThreadPoolExecutor
 sys.path.insert(0, os.path.join(os.path.dirname(os.path.abspath(__file__)), "..", "lib"))
@@ -184,6 +192,199 @@ def heap_cases(rng, tier):
     lst("QB", "xer", "%d BOOLEANs" % k, b"<QB>" + b"<true/>" * k + b"</QB>", 56, 4)
     cs.append(("O", "xer", "50000 octets", b"<O>" + b"41" * 50000 + b"</O>", 2, H, "XER OCTET STRING: buffer doubling"))
     return cs
+
+
+# ---------------------------------------------------------------- (S) the declared-size sweep
+STRUCT = {"str": 40, "BS": 48, "lst": 48}     # OCTET_STRING_t, BIT_STRING_t, A_SEQUENCE_OF(x) + ctx on LP64
+
+
+def sweep_bound(t, syn, wrap):
+    """(c, K, why) for a swept type; K never mentions lb / ub of the SIZE constraint"""
+    if t is None:                                   # INTEGER / ENUMERATED / OID / REAL / time contents
+        return 2, H + 3 * 65536 + 2, "length-prefixed primitive: one fragment (<= 64K octets) is allocated before it is read (UPER, as an unconstrained string); length compared with the input first (OER, BER)"
+    if t.is_str:
+        Ub = max(1, t.bpc)
+        if syn == "uper":
+            c, K, why = -(-16 * Ub // t.ubits), H + 3 * 65536 * Ub + 2, "theorem str_heap_frag_bound: w*peak <= 2*U*bits + w*(3*65536*U + 2), w=%d U=%d" % (t.ubits, Ub)
+        elif syn == "xer":
+            c, K, why = 8, H, "XER string: buffer doubling, old + new block during realloc, up to 4 bytes per character"
+        else:
+            c, K, why = 4, H, "length compared with the input before allocating; constructed BER: buffer doubling (old + new block)"
+    else:
+        per = t.esz + P + 8                         # element + pointer array share + a transient of the element decoder
+        if syn == "uper":
+            c, K, why = 8 * per, H + per * 201 + 64, "theorem lst_heap_bound: at most bits + 201 elements are held, (esz + 24) bytes each"
+        elif syn == "oer":
+            c, K, why = per, ZW, "one element per input octet, at most 201 zero-width elements"
+        else:
+            c, K, why = per, H, "one element per >= 2 input octets"
+    if wrap == "X" and syn in ("uper", "oer"):
+        c, K = c + 5, K + H + 65536
+    elif wrap:
+        K += H
+    return c, K, why
+
+
+def sweep(run, rng, tier, model, inp):
+    import c15_sweep as SW
+    ts = SW.make_types(rng)
+    byname = {t.name: t for t in ts}
+    text = SW.module_text(ts)
+    mods = {}
+    for b in ("san", "plain"):
+        m = mk(text)
+        build_modules([m], tag="c15d" + b, san=(b == "san"), extra_ldflags=WRAP, moddrv_extra=INC)
+        if not m.get("exe"):
+            run.violation("build:module", {"what": "asn1c rejected the sweep module or its code does not compile", "module": text[:3000],
+                                           "asn1c_out": m.get("asn1c_out", "")[-1500:], "build_log": m.get("build_log", "")[-1500:]}, no_input=True)
+            return {}
+        mods[b] = m
+    cases = []          # (type name, syn, label, data, expect, T | None, wrap)
+    for t in ts:
+        for syn, lab, data, exp in SW.cases_for(t, rng, tier):
+            cases.append((t.name, syn, lab, data, exp, t, None))
+    for tn, syn, lab, data, exp, t in SW.wrapped_cases(byname, rng):
+        cases.append((tn, syn, lab, data, exp, t, tn[0]))
+    for tn, syn, lab, data, exp in SW.leaf_cases(rng):
+        cases.append((tn, syn, lab, data, exp, None, None))
+    jobs = []
+    for i, (tn, syn, lab, data, exp, t, wrap) in enumerate(cases):
+        if len(data) > 2048:
+            path = os.path.join(inp, "s_%d.bin" % i)
+            open(path, "wb").write(data)
+            arg = "@" + path
+        else:
+            arg = data.hex() or "-"
+        # the plain build (glibc allocator) sees the UPER and OER cases: that is where sizes are declared, not delivered
+        for b in ("san", "plain") if syn in ("uper", "oer") and lab.split()[0] not in ("random",) else ("san",):
+            jobs.append({"i": i, "build": b, "line": "dmeterb %s %s %s -1" % (tn, syn, arg)})
+    CH = 64
+    chunks = []
+    for b in ("san", "plain"):
+        js = [j for j in jobs if j["build"] == b]
+        chunks += [(b, js[k:k + CH]) for k in range(0, len(js), CH)]
+
+    def go(ch):
+        b, js = ch
+        exe = mods[b]["exe"]
+        rc, out, err = run_lines(exe, [j["line"] for j in js], timeout=300, env=SAN_ENV)
+        if rc == 0 and len(out) == len(js):
+            for j, o in zip(js, out):
+                j["out"], j["crash"] = o, None
+        else:       # something died: one process per line, to attribute it
+            for j in js:
+                r = U.run_child(exe, j["line"], 8192, timeout=60, env=SAN_ENV)
+                j["out"], j["crash"], j["err"] = r["out"], (r["why"] if r["crash"] else None), r["err"]
+        return ch
+    with ThreadPoolExecutor(NCPU) as ex:
+        list(ex.map(go, chunks))
+    # ---- the model's prediction for every top-level UPER string / list case
+    mlines, mjobs = [], {}
+    for i, (tn, syn, lab, data, exp, t, wrap) in enumerate(cases):
+        if syn != "uper" or t is None or wrap:
+            continue
+        if len(data) > 70000 and tier == "quick" and t.kind not in ("OS", "QB"):
+            continue
+        if t.is_str and t.kind in ("PR", "VS", "NS") and any(w in lab for w in ("random", "partial", "some data")):
+            continue        # restricted alphabets: a code outside the alphabet ends the C decode early (not modelled)
+        src = data.hex() or "-"
+        if len(data) > 2048:
+            src = "@" + os.path.join(inp, "s_%d.bin" % i)
+        sc = "%d,%s,%d" % (t.p_lb, "-" if t.p_ub is None else str(t.p_ub), 1 if t.p_ext else 0) if t.p_sized else "0,-,0"
+        if t.is_str:
+            mlines.append("c15_str P %d %d %s %s" % (t.ubits, t.bpc, sc, src))
+        else:
+            mlines.append("c15_lst P %d %d %s %s" % (t.ubits, t.esz, sc, src))
+        mjobs[i] = len(mlines) - 1
+    mout = []
+    if mlines:
+        MCH = max(1, len(mlines) // NCPU + 1)
+        parts = [mlines[k:k + MCH] for k in range(0, len(mlines), MCH)]
+        with ThreadPoolExecutor(NCPU) as ex:
+            res = list(ex.map(lambda ls: run_lines(model, ls, timeout=600), parts))
+        for (rcm, o, e), ls in zip(res, parts):
+            if rcm != 0 or len(o) != len(ls):
+                raise RuntimeError("model driver failed on the sweep: " + e[-500:])
+            mout += o
+    # ---- oracle and faithfulness (violations are reported oracle first: they carry the failing input)
+    viol = []
+    emit = lambda kind, replay: viol.append((0 if kind.startswith("oracle:heap(") else 1 if kind.startswith("oracle") else 2, len(viol), kind, replay))
+    stats = {"cases": len(cases), "jobs": len(jobs), "types": len(ts) + 3 * len(SW.WRAPPED) + 10, "model_compared": 0, "valid_ok": 0, "refused_requests": 0}
+    tight = []
+    for j in jobs:
+        tn, syn, lab, data, exp, t, wrap = cases[j["i"]]
+        n = len(data)
+        desc = "sweep %s %s %s [%s]" % (tn, syn, lab, j["build"])
+        run.case(desc)
+        run.count("sweep_%s" % syn)
+        w0 = lab.split()[0].rstrip(",")
+        run.count("sweep_shape_" + ("long" if w0.isdigit() else w0))
+        replay = {"module_line": next((l for l in text.split("\n") if l.startswith(tn + " ::=")), tn), "type": tn, "syntax": syn, "command_line": j["line"],
+                  "input_bytes": n, "input_head": data[:48].hex(), "build": j["build"], "label": lab, "seed": run.seed,
+                  "how_to_regenerate": "lib/c15_sweep.py: make_types(Rng(seed)) / cases_for; module C15D"}
+        if j["crash"]:
+            emit("oracle:heap(%s,%s)" % (tn, syn), dict(replay, what="decoder process died: %s" % j["crash"], stderr_tail=j.get("err", "")[-1500:], c=j["out"]))
+            continue
+        o = U.parse_dmeter(j["out"])
+        if o is None:
+            emit("oracle:driver", dict(replay, what="unexpected driver output", c=j["out"]))
+            continue
+        run.count("rc_" + o["rc"])
+        stats["refused_requests"] += o.get("refused", 0)
+        c, K, why = sweep_bound(t, syn, wrap)
+        slack = 0 if j["build"] == "san" else 32 * o["allocs"]         # glibc: usable size >= request
+        worst = max(o["peak"], o["maxreq"])
+        if j["build"] == "san":
+            tight.append((round(worst / float(c * n + K), 3), desc, "peak=%d maxreq=%d n=%d bound=%d*n+%d" % (o["peak"], o["maxreq"], n, c, K)))
+        if o["peak"] > c * n + K + slack or o["maxreq"] > c * n + K:
+            emit("oracle:heap(%s,%s)" % (tn, syn),
+                          dict(replay, what="%s %d bytes for %d input bytes exceeds %d*n + %d (%s); the constant may not depend on a bound of a SIZE range"
+                               % ("largest single request" if o["maxreq"] > c * n + K else "peak live heap", o["maxreq"] if o["maxreq"] > c * n + K else o["peak"], n, c, K, why),
+                               c=j["out"], bound={"c": c, "K": K}, refused=o.get("refused", 0)))
+            continue
+        if o["left"] != 0:
+            emit("oracle:heap-left(%s,%s)" % (tn, syn), dict(replay, what="%d bytes still live after ASN_STRUCT_FREE" % o["left"], c=j["out"]))
+        if exp == "valid":
+            if o["rc"] != "OK" or o["consumed"] != n:
+                emit("oracle:valid-refused(%s,%s)" % (tn, syn), dict(replay, what="a short valid encoding is answered %s consumed=%d of %d" % (o["rc"], o["consumed"], n), c=j["out"]))
+            else:
+                stats["valid_ok"] += 1
+        # faithfulness: the metered model decoder against the C's meter
+        if j["i"] in mjobs and j["build"] == "san":
+            ml = mout[mjobs[j["i"]]]
+            f = ml.split()
+            mok = f[0] == "OK"
+            md = dict(kv.split("=") for kv in f[(3 if mok else 1):])
+            mpeak, mreq, mall = int(md["peak"]), int(md["maxreq"]), int(md["allocs"])
+            S_ = STRUCT["BS" if t.kind == "BS" else "str" if t.is_str else "lst"]
+            tol = 0 if t.is_str else t.esz + 16
+            extra_allocs = 0 if t.is_str else None
+            bad = []
+            zero_bits = mok and int(f[2]) == 8 * n            # uper_decode turns "RC_OK, no bit consumed" into RC_WMORE / RC_FAIL
+            if mok != (o["rc"] == "OK") and not zero_bits:
+                bad.append("outcome: model %s, C %s" % (f[0], o["rc"]))
+            if not (mpeak + S_ <= o["peak"] <= mpeak + S_ + tol):
+                bad.append("peak: model %d + struct %d, C %d" % (mpeak, S_, o["peak"]))
+            if max(mreq, S_) != o["maxreq"] and not (not t.is_str and o["maxreq"] <= max(mreq, S_)):
+                bad.append("largest request: model %d, C %d" % (max(mreq, S_), o["maxreq"]))
+            if t.is_str and mall + 1 != o["allocs"]:
+                bad.append("allocations: model %d + 1, C %d" % (mall, o["allocs"]))
+            stats["model_compared"] += 1
+            if bad:
+                emit("correspondence:HeapBound.%s(%s)" % ("str_dec" if t.is_str else "lst_dec", tn),
+                              dict(replay, what="the allocation-metered model decoder (policy PerFragment) and the C disagree: " + "; ".join(bad), model=ml, c=j["out"],
+                                   model_command=mlines[mjobs[j["i"]]]))
+        if len(run.cov["samples"]) < 14 and rng.chance(1, 400):
+            run.sample({"type": tn, "syntax": syn, "input": lab, "n": n, "c_output": j["out"], "bound": "%d*n+%d" % (c, K)})
+    nth = {}
+    ranked = []
+    for pr, idx, kind, replay in viol:            # one of every kind first (vlib keeps the first 20), oracle kinds before correspondence
+        nth[kind] = nth.get(kind, 0) + 1
+        ranked.append((nth[kind] - 1, pr, idx, kind, replay))
+    for _, _, _, kind, replay in sorted(ranked, key=lambda v: v[:3]):
+        run.violation(kind, replay)
+    stats["tightest"] = sorted(tight, reverse=True)[:12]
+    return stats
 
 
 def main(tier):
@@ -369,6 +570,8 @@ def main(tier):
                 run.violation("oracle:heap-left(%s,%s)" % (tn, syn), dict(replay, what="%d bytes still live after ASN_STRUCT_FREE" % o["left"], c=r["out"]))
         if j["kind"] == "heap" and len(run.cov["samples"]) < 10 and rng.chance(1, 12):
             run.sample({"type": tn, "syntax": syn, "input": j["label"], "n": j["n"], "c_output": r["out"], "bound": "%d*n+%d" % (c, K)})
+    # ------------------------------------------------------------ (S) declared-size sweep
+    sweep_stats = sweep(run, rng, tier, model, inp)
     # faithfulness, the other direction: where the model sees an unguarded cycle the C must die at depth 10^5
     for (syn, tn), g in sorted(verdict.items()):
         if not g and deep_crash.get((syn, tn)) is False:
@@ -379,17 +582,19 @@ def main(tier):
     tb = ["Coq 8.16.1 kernel; vm_compute for the heap refuted witnesses and Examples", "axioms under Print Assumptions: " + (", ".join(sorted(axioms)) or "none (Closed under the global context)"),
           "extraction: ExtrOcamlBasic only; OCaml 4.13.1", "harness/c15_guards.json (reviewed guard table) and lib/c15_util.scan_guards (regex scanner of the skeleton sources: function body, `if(ASN__STACK_OVERFLOW_CHECK(` followed by a failure, ber_check_tags call)",
           "lib/c15_util.py: type graphs of the hand-written modules (NODES/EDGES), input generators; harness/moddrv_c15.inc (meter: --wrap malloc family, malloc_usable_size; stack extent sampled at allocations)",
+          "lib/c15_sweep.py (type table of module C15D, per-syntax input builders), the LP64 struct sizes of checks/c15.py STRUCT (OCTET_STRING_t 40, BIT_STRING_t 48, list head 48) and the 8-byte pointer of set_add; dmeterb's refusing allocator (32 MiB per request)",
           "gcc -O1 with and without ASan/UBSan, LP64, setrlimit(RLIMIT_STACK) in child processes; frame sizes and stack exhaustion are observed, not proved"]
     return run.finish("proof", (nthm, ndis), trusted_base=tb,
                       checker_cmd="make -C /verif all && coqc -Q coq A1 coq/Props/Properties_C15.v",
                       extra_cov={"theorems": names, "modules": 3, "child_processes": len(jobs), "depths": depths, "caller_max_stack": caller,
-                                 "coqchk": coqchk, "max_stack_extent_above_limit": max_stk, "heap_bound_tightest": sorted(tight, reverse=True)[:12],
+                                 "coqchk": coqchk, "sweep": sweep_stats, "max_stack_extent_above_limit": max_stk, "heap_bound_tightest": sorted(tight, reverse=True)[:12],
                                  "constants": {"NEST_C": NEST_C, "H": H, "P": P, "ZW": ZW, "STK_SLACK": STK_SLACK, "MIN_FRAME": MIN_FRAME},
                                  "rule": "one case = one child process (type, syntax, input, build, RLIMIT_STACK, max_stack_size) or one guard-table / model line",
                                  "traces_validated_against_impl": run.cov["evaluations"]},
                       assumptions=["PARTIAL: the theorems are about a call-graph model and the reference decoders; frame sizes, stack exhaustion and the allocator are observed at run time on this build only",
                                    "recursive types covered: the hand-written shapes of modules C15A/B/C (SEQUENCE, SEQUENCE OF, SET OF, CHOICE, EXPLICIT tag, CHOICE through SEQUENCE, extension addition, constructed strings, ANY, skipped extensions); SET, open types of information object sets and APER are not exercised",
-                                   "heap constants are per type class (notes/design/C15.md) and hold for requested sizes as reported by ASan's malloc_usable_size"])
+                                   "heap constants are per type class (notes/design/C15.md) and hold for requested sizes as reported by ASan's malloc_usable_size",
+                                   "the allocation-metered model (coq/Rt/HeapBound.v) covers the UPER decoders of strings and SEQUENCE OF / SET OF; OER, BER, XER, members, open types and length-prefixed primitives are held to the oracle only; restricted alphabets on random tails and zero-bit values are not compared with the model"])
 
 
 if __name__ == "__main__":
